@@ -4,25 +4,37 @@ from vlib import std, hbuild, recipes
 
 PID = "C23"
 META = {
-    "text": "Theorems (Properties_C23.v) about the Gallina transcription of Http::One::ResponseParser "
-            "(parse, parseResponseFirstLine, parseResponseStatusAndReason, ParseResponseStatus, "
-            "Parser::skipLineTerminator/grabMimeBlock/cleanMimePrefix/unfoldMime, headersEnd): for ALL byte strings, "
-            "ALL ways of cutting them into segments, both parser modes and every reply_header_max_size, the callers' "
-            "read loop ends in the same outcome (need-more state / accepted fields + unconsumed bytes / error codes) "
-            "as one parse() of the whole input; a status line is accepted exactly when it is "
-            "magic DIGIT delim 3DIGIT delim reason eol with the status in 100..599, and then version, status, reason "
-            "and the consumed length are the grammar's; every non-empty input that is neither a prefix nor an "
-            "extension of \"HTTP/1.\" / \"ICY \" is gatewayed as an HTTP/0.9 body (1.1 200 Gatewaying, nothing consumed). "
-            "The model is tied to the code by regenerated tables (magics, reason-phrase set, delimiter sets, status "
-            "constants, gateway constants) and by differential runs of the extracted model against the real parser "
-            "compiled from the working tree (UBSan), call by call with all parser members compared.",
+    "text": "Theorems (Properties_C23.v, 10, closed under the global context) about the Gallina transcription of "
+            "Http::One::ResponseParser (parse, parseResponseFirstLine, parseResponseStatusAndReason, ParseResponseStatus, "
+            "Parser::skipLineTerminator/grabMimeBlock/cleanMimePrefix/unfoldMime/firstLineSize, headersEnd): "
+            "(1) for ALL byte strings, ALL ways of cutting them into segments (empty ones included), both parser modes and "
+            "every reply_header_max_size, the callers' read loop (append, parse(), keep remaining()) ends in the same outcome "
+            "-- need-more state + retained bytes / accepted protocol, version, status, reason, header block + unconsumed "
+            "bytes / error codes -- as one parse() of the whole input, from a fresh parser and from any waiting state "
+            "(definitive outcomes stable under extension + need-more checkpoints commute, lifted by induction on the "
+            "segment list); (2) ParseResponseStatus succeeds iff the input is 3DIGIT delimiter with 100 <= value <= 599; "
+            "parseResponseFirstLine accepts iff the input is (\"HTTP/1.\" DIGIT delim | \"ICY \") 3DIGIT delim "
+            "*(HTAB/SP/VCHAR/obs-text) (CRLF | relaxed: LF), delim = SP (relaxed: SP HTAB VT FF CR), and then protocol, "
+            "minor version, status, reason and the unconsumed rest are the grammar's; every reply accepted by parse() is "
+            "such a line + a block ending in an empty line + rest, or the HTTP/0.9 case; a grammatical line is never "
+            "reported as a syntax error; (3) every input that neither starts with nor is a prefix of \"HTTP/1.\" / \"ICY \" "
+            "is gatewayed as an HTTP/0.9 body (HTTP/1.1 200 Gatewaying, fake header block, nothing consumed) and nothing "
+            "else is. The grammar is stated with explicit literals and byte ranges; the regenerated tables (magics, "
+            "delimiter sets, reason-phrase set obtained by probing the real parser, status constants, gateway constants) "
+            "are proved equal to them on every run. The model is tied to the code by differential runs of the extracted "
+            "model against the real parser compiled from the working tree (UBSan), call by call with every parser member "
+            "compared, plus an independent Python oracle (three-valued grammar recogniser, header-block rules) evaluated "
+            "on the implementation's answers.",
     "note": "Trusted: Coq kernel, extraction, gen/gen_respparse.cc + gen_charsets.cc, harness/h_respparse.cc; the "
             "hand-written RespparseModel.v is validated against the code only on the generated cases. 32-bit "
-            "SBuf::size_type sums are modelled without wrap (SBuf::maxSize = 0x0fffffff makes wrap impossible). "
-            "The grammar theorems assume inputs shorter than SBuf::npos (2^32-1) bytes.",
+            "SBuf::size_type sums in grabMimeBlock are modelled without wrap (SBuf::maxSize = 0x0fffffff makes wrap "
+            "impossible). The grammar theorems assume inputs shorter than SBuf::npos (2^32-1) bytes (Tokenizer::prefix "
+            "limit). Not proved, checked by correspondence + oracle only: that headersEnd stops at the FIRST empty line "
+            "(proved: it stops at the end of an empty line), and the rewriting done by cleanMimePrefix/unfoldMime "
+            "(they are modelled and covered by the segmentation theorem as functions of the isolated block).",
     "technique": "Coq proof (stability under extension + checkpoint commutation => segmentation independence by "
-                 "induction on the segment list; span/maximal-run characterisation of the status line) + "
-                 "extracted-model differential correspondence",
+                 "induction on the segment list; maximal-run / digit-run characterisation of the status line; vm_compute "
+                 "sweep over the 256 regenerated table entries) + extracted-model differential correspondence",
 }
 
 FRESH = ["src/http/one/ResponseParser.cc", "src/http/one/Parser.cc", "src/mime_header.cc",
